@@ -121,6 +121,9 @@ Example C16_nonvacuous :
      Ok (VAdd false); Ok (VIdx None); Ok (VIdx None); Ok (VPub (Some 4%N)); Ok (VAdd true); Err; Err;
      Ok (VPub (Some 3%N)); Ok (VIdx None)].
 Proof.
-  split; [apply (C16_reachable_inv [0; 1; 2]%N); repeat constructor; simpl; intuition discriminate|].
-  vm_compute. repeat split; reflexivity.
+  intros ops s.
+  assert (Hnd : NoDup [0; 1; 2]%N) by (repeat constructor; simpl; intuition discriminate).
+  split.
+  - exact (proj1 (C16_reachable_inv [0; 1; 2]%N ops Hnd)).
+  - vm_compute. repeat split.
 Qed.
